@@ -150,18 +150,62 @@ Inductive dout := DNodes (ns : list node) | DError (level : N) (msg : str).
 
 Inductive dkind := KAdm (titled : bool) | KInclude | KOther.
 
-Section Nest.
-  (* ---------------------------------------------------------------- oracles *)
-  Variable env : Type.                                   (* md_env as markdown-it reads/writes it *)
-  Variable P : env -> str -> list tok * env.             (* md.parse(text, env) *)
-  Variable PI : env -> str -> list tok * env.            (* md.parseInline(text, env) *)
+(* everything every nested parse shares: md_env and the document's registries *)
+Record shared (env : Type) := {
+  s_env : env;                 (* md_env as markdown-it reads/writes it (reference definitions ...) *)
+  s_names : list str;          (* keys of document.nameids *)
+  s_footrefs : list str;       (* note_footnote_ref / note_autofootnote_ref *)
+  s_subrefs : list str }.      (* document.sub_references *)
+Arguments s_env {env}. Arguments s_names {env}. Arguments s_footrefs {env}. Arguments s_subrefs {env}.
 
-  (* everything every nested parse shares: md_env and the document's registries *)
-  Record shared := {
-    s_env : env;
-    s_names : list str;          (* keys of document.nameids *)
-    s_footrefs : list str;       (* note_footnote_ref / note_autofootnote_ref *)
-    s_subrefs : list str }.      (* document.sub_references *)
+(* docutils' admonition directives only act through the state object they are given *)
+Record callbacks (S : Type) := {
+  cb_nested_parse : list str -> nat -> node -> S -> res (node * S);   (* state.nested_parse(content, offset, node) *)
+  cb_inline_text : str -> N -> S -> res (list node * S) }.            (* state.inline_text(text, lineno) *)
+Arguments cb_nested_parse {S}.
+Arguments cb_inline_text {S}.
+
+(* ------------------------------------------------------------------ oracles *)
+Record oracles (env : Type) := {
+  o_P : env -> str -> list tok * env;             (* md.parse(text, env): tokens, mutated env *)
+  o_PI : env -> str -> list tok * env;            (* md.parseInline(text, env) *)
+  o_dir_lookup : str -> option (dkind * dclass);  (* directives.directive(name, ...) *)
+  (* dedent + options_to_items + validation against option_spec:
+     (attributes the directive puts on its node, warnings) *)
+  o_opt_validate : str -> option str -> str * list str;
+  (* any directive that is neither admonition-type nor include: name, arguments, raw option
+     block, body, body_offset, position, registries -> nodes, registries *)
+  o_other_directive :
+    str -> list str -> option str -> list str -> nat -> N -> shared env -> list node * shared env;
+  o_eval_rst : str -> N -> shared env -> list node * shared env;   (* render_restructuredtext *)
+  o_jinja : str -> option str;                    (* None: the template raised *)
+  o_sub_names : str -> list str;                  (* jinja2 Name nodes of the expression *)
+  o_is_directive_start : str -> bool;             (* REGEX_DIRECTIVE_START.match *)
+  o_fs_read : str -> option str;                  (* Path.read_text; None: not found *)
+  o_include_opts : option str -> bool * N;        (* (literal or code?, heading-offset) *)
+  o_adm_run : forall S : Type, callbacks S ->     (* the run() of the admonition classes *)
+    bool -> str -> list str -> str -> list str -> nat -> N -> S -> res (dout * S) }.
+Arguments o_P {env}. Arguments o_PI {env}. Arguments o_dir_lookup {env}.
+Arguments o_opt_validate {env}. Arguments o_other_directive {env}. Arguments o_eval_rst {env}.
+Arguments o_jinja {env}. Arguments o_sub_names {env}. Arguments o_is_directive_start {env}.
+Arguments o_fs_read {env}. Arguments o_include_opts {env}. Arguments o_adm_run {env}.
+
+Section Nest.
+  Variable env : Type.
+  Variable orc : oracles env.
+  Local Notation P := (o_P orc).
+  Local Notation PI := (o_PI orc).
+  Local Notation dir_lookup := (o_dir_lookup orc).
+  Local Notation opt_validate := (o_opt_validate orc).
+  Local Notation other_directive := (o_other_directive orc).
+  Local Notation eval_rst := (o_eval_rst orc).
+  Local Notation jinja := (o_jinja orc).
+  Local Notation sub_names := (o_sub_names orc).
+  Local Notation is_directive_start := (o_is_directive_start orc).
+  Local Notation fs_read := (o_fs_read orc).
+  Local Notation include_opts := (o_include_opts orc).
+  Local Notation adm_run := (o_adm_run orc).
+  Local Notation shared := (shared env).
 
   Definition set_env (e : env) (h : shared) : shared :=
     {| s_env := e; s_names := s_names h; s_footrefs := s_footrefs h; s_subrefs := s_subrefs h |}.
@@ -171,31 +215,6 @@ Section Nest.
     {| s_env := s_env h; s_names := s_names h; s_footrefs := s_footrefs h ++ [n]; s_subrefs := s_subrefs h |}.
   Definition set_subrefs (l : list str) (h : shared) : shared :=
     {| s_env := s_env h; s_names := s_names h; s_footrefs := s_footrefs h; s_subrefs := l |}.
-
-  Variable dir_lookup : str -> option (dkind * dclass).  (* directives.directive(name, ...) *)
-  (* dedent + options_to_items + validation against option_spec:
-     (attributes the directive puts on its node, warnings) *)
-  Variable opt_validate : str -> option str -> str * list str.
-  (* any directive that is neither admonition-type nor include: name, arguments, raw option
-     block, body, body_offset, position, registries -> nodes, registries *)
-  Variable other_directive :
-    str -> list str -> option str -> list str -> nat -> N -> shared -> list node * shared.
-  Variable eval_rst : str -> N -> shared -> list node * shared.    (* render_restructuredtext *)
-  Variable jinja : str -> option str.                    (* None: the template raised *)
-  Variable sub_names : str -> list str.                  (* jinja2 Name nodes of the expression *)
-  Variable is_directive_start : str -> bool.             (* REGEX_DIRECTIVE_START.match *)
-  Variable fs_read : str -> option str.                  (* Path.read_text; None: not found *)
-  Variable include_opts : option str -> bool * N.        (* (literal or code?, heading-offset) *)
-
-  (* docutils' admonition directives: they only act through the state object they are given *)
-  Record callbacks (S : Type) := {
-    cb_nested_parse : list str -> nat -> node -> S -> res (node * S);   (* state.nested_parse(content, offset, node) *)
-    cb_inline_text : str -> N -> S -> res (list node * S) }.            (* state.inline_text(text, lineno) *)
-  Arguments cb_nested_parse {S}.
-  Arguments cb_inline_text {S}.
-
-  Variable adm_run : forall S : Type, callbacks S ->
-    bool -> str -> list str -> str -> list str -> nat -> N -> S -> res (dout * S).
 
   (* BaseAdmonition.run as it reads in docutils/parsers/rst/directives/admonitions.py *)
   Definition admonition_run (S : Type) (cb : callbacks S) (titled : bool) (name : str)
@@ -680,3 +699,14 @@ Section Nest.
     den_tokens f top (set_env e' h) toks.
 
 End Nest.
+
+Arguments set_roots {env}. Arguments set_cur {env}. Arguments set_lmap {env}.
+Arguments set_hoff {env}. Arguments set_troot {env}. Arguments set_shr {env}.
+Arguments set_env {env}. Arguments add_name {env}. Arguments add_footref {env}.
+Arguments set_subrefs {env}. Arguments roots {env}. Arguments cur {env}. Arguments lmap {env}.
+Arguments hoff {env}. Arguments troot {env}. Arguments shr {env}.
+Arguments extend_cur {env}. Arguments with_node {env}. Arguments with_detached {env}.
+Arguments seccap {env}. Arguments note_explicit_target {env}. Arguments wrap1 {env}.
+Arguments den_fold {env T}. Arguments sh0 {env}. Arguments st0 {env}.
+Arguments render_children {env}. Arguments render_tokens_ {env}.
+Arguments render_heading {env}.
